@@ -74,6 +74,38 @@ func (a aff) scale(s int64) aff {
 
 func (a aff) isConst() bool { return len(a.t) == 0 }
 
+// atomOrderKey is a stable name of an atom, used to visit the atoms of an
+// affine form in the same order on every run (memoised results with cycle
+// cuts would otherwise depend on Go's map iteration order).
+func atomOrderKey(x interface{}) string {
+	val := func(v ssa.Value) string {
+		p := ""
+		if f := v.Parent(); f != nil {
+			p = f.String()
+		}
+		return p + "#" + v.Name()
+	}
+	switch k := x.(type) {
+	case ssa.Value:
+		return "v:" + val(k)
+	case lenKey:
+		return "l:" + val(k.v)
+	case symKey:
+		return "s:" + k.name
+	}
+	return fmt.Sprintf("z:%v", x)
+}
+
+// sortedAtoms lists the atoms of a in stable order.
+func (a aff) sortedAtoms() []interface{} {
+	out := make([]interface{}, 0, len(a.t))
+	for x := range a.t {
+		out = append(out, x)
+	}
+	sort.Slice(out, func(i, j int) bool { return atomOrderKey(out[i]) < atomOrderKey(out[j]) })
+	return out
+}
+
 func satAdd(a, b int64) int64 {
 	r := a + b
 	if r > posInfI || (a > 0 && b > 0 && r < 0) {
@@ -120,6 +152,7 @@ type boundsFn struct {
 	byKey       map[string][]ssa.Value
 	stores      map[string][]*ssa.Store
 	inFits      bool // re-entrancy guard of fitsAt
+	cuts        int  // number of cycle cuts taken by rangeOfAtom so far
 	noInline    bool // summary mode: calls stay atoms (the caller translates them)
 	phiDone     map[*ssa.Phi]bool
 	passed      map[*ssa.BasicBlock][]passedCheck // requirements of the block's own panic-capable instructions
@@ -501,7 +534,8 @@ func (bf *boundsFn) lenAff1(v ssa.Value) aff {
 // rangeOfAff evaluates an affine form over the ranges of its atoms.
 func (bf *boundsFn) rangeOfAff(a aff) ival {
 	lo, hi := a.k, a.k
-	for x, c := range a.t {
+	for _, x := range a.sortedAtoms() {
+		c := a.t[x]
 		r := bf.rangeOfAtom(x)
 		if c > 0 {
 			lo = satAdd(lo, satMul(c, r.lo))
@@ -519,15 +553,22 @@ func (bf *boundsFn) rangeOfAtom(x interface{}) ival {
 		return *r
 	}
 	if bf.inProg[x] {
+		// a cycle is cut here with the type's range; whatever is computed on
+		// top of this cut is not memoised (see below), so that a result never
+		// depends on the order in which atoms were first asked for
+		bf.cuts++
 		if v, ok := x.(ssa.Value); ok {
 			return typeRange(v.Type())
 		}
 		return ival{0, posInfI}
 	}
 	bf.inProg[x] = true
+	before := bf.cuts
 	r := bf.rangeOfAtom1(x)
 	delete(bf.inProg, x)
-	bf.rngMemo[x] = &r
+	if bf.cuts == before || len(bf.inProg) == 0 {
+		bf.rngMemo[x] = &r
+	}
 	return r
 }
 
@@ -873,7 +914,8 @@ func (B *Bounds) helperFacts(caller *boundsFn, callee *ssa.Function, args []ssa.
 // caller's terms; fails if it mentions anything else.
 func (bf *boundsFn) substParams(f aff, callee *ssa.Function, args []ssa.Value) (aff, bool) {
 	r := affConst(f.k)
-	for x, c := range f.t {
+	for _, x := range f.sortedAtoms() {
+		c := f.t[x]
 		var pv ssa.Value
 		isLen := false
 		switch k := x.(type) {
@@ -1041,7 +1083,13 @@ func (bf *boundsFn) loopBufState(h *ssa.BasicBlock, entry bufState, order []*ssa
 		phi *ssa.Phi
 		m   int64
 	}
-	for key, r0 := range entry {
+	var entryKeys []string
+	for key := range entry {
+		entryKeys = append(entryKeys, key)
+	}
+	sort.Strings(entryKeys)
+	for _, key := range entryKeys {
+		r0 := entry[key]
 		if r0 == nil {
 			continue
 		}
@@ -1329,7 +1377,8 @@ func (B *Bounds) inlineAff(caller *boundsFn, callee *ssa.Function, args []ssa.Va
 	cbf := B.rawOf(callee)
 	ra := cbf.affOf(ret.Results[0])
 	out := affConst(ra.k)
-	for x, c := range ra.t {
+	for _, x := range ra.sortedAtoms() {
+		c := ra.t[x]
 		switch k := x.(type) {
 		case symKey:
 			return aff{}, false
